@@ -1,5 +1,7 @@
 """C11 - ergodic trimming keeps exactly the heaviest strongly connected
 component."""
+import warnings
+
 import numpy as np
 import scipy.sparse as sp
 
@@ -248,6 +250,22 @@ def run_case(ctx, kind, rng, idx):
         keeps[cname] = (check_trim(ctx, C, thr, renumber, mapping,
                                    mc.dense(Tc), cname), mc.dense(Tc))
         ctx.count('containers_compared')
+    # numpy.matrix (what sparse.todense() hands back): `*` is the matrix
+    # product there, everything else behaves like the ndarray
+    if idx % 3 == 0:
+        try:
+            with warnings.catch_warnings():
+                warnings.simplefilter('ignore')
+                Cm = np.asmatrix(np.array(C))
+                mapping, Tm = tm.trim_disconnected(
+                    Cm, threshold=thr_arg, renumber_states=renumber)
+            ctx.count('numpy_matrix_inputs')
+            keeps['np.matrix'] = (check_trim(
+                ctx, C, thr, renumber, mapping, np.asarray(Tm), 'np.matrix'),
+                np.asarray(Tm))
+        except Exception as e:  # noqa
+            ctx.violation('trim.raised[dense]', 'np.matrix: %s: %s' % (
+                type(e).__name__, str(e)[:200]))
     if 'ndarray' in keeps:
         k0, T0 = keeps['ndarray']
         for cname, (k, Td) in keeps.items():
